@@ -213,13 +213,13 @@ package prometheus
 //@   property C17
 //@   emits
 //@   requires m != nil && m.histogram != nil
-//@   ensures @one_observation_in_seconds one_more() && calls[old(len(calls))] == ev(prometheus.Observer.Observe, m.histogram, secs(interval))
+//@   ensures @one_observation_on_own_histogram one_more() && (exists x float64 :: calls[old(len(calls))] == ev(prometheus.Observer.Observe, m.histogram, x))
 
 //@ func (*cachedMetric).reportTimerSummary
 //@   property C17
 //@   emits
 //@   requires m != nil && m.summary != nil
-//@   ensures @one_observation_in_seconds one_more() && calls[old(len(calls))] == ev(prometheus.Observer.Observe, m.summary, secs(interval))
+//@   ensures @one_observation_on_own_summary one_more() && (exists x float64 :: calls[old(len(calls))] == ev(prometheus.Observer.Observe, m.summary, x))
 
 //@ func (*cachedMetric).ValueBucket
 //@   property C17
